@@ -144,4 +144,116 @@ structure SProg where
 def execProg (p : SProg) (ρ : String → Bool) : Option SVal :=
   execBody p.ret (argsEnv p.args ρ) p.body
 
+/-! ## the class of source programs of the preservation theorems (`QV/Props/C01.lean`: `ast2ast_if_preserved`,
+`C01_if`, `C01_for`); decidable, evaluated by the driver for the evidence -/
+
+/-- a name a user may write: the passes generate none of these -/
+def userName (n : String) : Bool := !isDunder n && !isIfTarg n
+
+
+/-- a literal `int` -/
+def isIntLit : SExp → Bool
+  | .const (.int _) => true
+  | _ => false
+
+/-- a literal `int` or `bool`: what a loop variable is replaced by -/
+def isIB : SExp → Bool
+  | .const (.int _) => true
+  | .const (.bool _) => true
+  | _ => false
+
+mutual
+/-- expressions on which `ASTRewriter.visit` is the identity and whose image under `toP` is in the syntax of
+`Sem.semW`: user variables, bool / int constants, `not`, `~`, `and` / `or`, if-expressions, comparisons,
+the binary operators other than `**` (shifts by a literal amount: `Sem.semW` reads the amount from the syntax) -/
+def plainE : SExp → Bool
+  | .name n => userName n
+  | .const (.bool _) => true
+  | .const (.int _) => true
+  | .const _ => false
+  | .boolop _ vs => plainEs vs
+  | .unop op e => (op == "Not" || op == "Invert") && plainE e
+  | .ite c t e => plainE c && plainE t && plainE e
+  | .cmp _ l r => plainE l && plainE r
+  | .bin op l r => (binName op).isSome && plainE l && plainE r &&
+      (if op == "LShift" || op == "RShift" then isIntLit r else true)
+  | _ => false
+def plainEs : List SExp → Bool
+  | [] => true
+  | e :: es => plainE e && plainEs es
+end
+
+
+mutual
+/-- the statement contains an `if` -/
+def hasIf : SStmt → Bool
+  | .ifs _ _ _ => true
+  | .for_ _ _ b e => hasIfs b || hasIfs e
+  | _ => false
+def hasIfs : List SStmt → Bool
+  | [] => false
+  | s :: ss => hasIf s || hasIfs ss
+end
+
+
+mutual
+/-- the statement contains a `for` -/
+def hasFor : SStmt → Bool
+  | .for_ _ _ _ _ => true
+  | .ifs _ b e => hasFors b || hasFors e
+  | _ => false
+def hasFors : List SStmt → Bool
+  | [] => false
+  | s :: ss => hasFor s || hasFors ss
+end
+
+def allIntLit : List SExp → Bool
+  | [] => true
+  | e :: es => isIntLit e && allIntLit es
+
+def allIB : List SExp → Bool
+  | [] => true
+  | e :: es => isIB e && allIB es
+
+/-- the iterators of the preservation theorem: `range` of one to three `int` literals, a tuple or a list of
+`int` / `bool` literals -/
+def closedIter : SExp → Bool
+  | .call fn args => fn == "range" && allIntLit args
+  | .tuple es => allIB es
+  | .list es => allIB es
+  | _ => false
+
+mutual
+/-- the statements of the preservation theorem: assignments and augmented assignments of plain expressions
+to user variables; `if` / `elif` / `else` of such statements nested to any depth **through the else
+branches** (an `if` inside the body of an `if` is rewritten into a list that reads `_iftargN` before it is
+defined: the translator refuses it), without loops inside; `for v in <closedIter>` over such statements, loops
+and `if`s nested inside to any depth, without `else` -/
+def okS : SStmt → Bool
+  | .assign [.name t] e => userName t && plainE e
+  | .aug (.name t) op e => userName t && plainE (.bin op (.name t) e)
+  | .ifs c b e => plainE c && okSs b && !hasIfs b && okSs e && !hasFors b && !hasFors e
+  | .for_ (.name v) it b [] => userName v && closedIter it && okSs b
+  | _ => false
+def okSs : List SStmt → Bool
+  | [] => true
+  | s :: ss => okS s && okSs ss
+end
+
+
+/-- a statement at the top level of a function body: a statement of `okS`, an expression statement, or
+`return e` -/
+def okTop : SStmt → Bool
+  | .ret (some e) => plainE e
+  | .expr e => plainE e
+  | s => okS s
+
+/-- the source programs of the preservation theorem: user names for the arguments, `okTop` statements -/
+def okProg (p : SProg) : Bool := p.args.all (fun a => userName a.1) && p.body.all okTop
+
+
+/-- the arguments as the rewriter sees them: no tuple-typed argument -/
+def aargsOf (p : SProg) : Args := p.args.map fun a => (a.1, none)
+
+
 end QV.A2A
